@@ -608,6 +608,17 @@ def streams(tier, rng):
     def nt_tree(c, m):
         return len(c.split(" ")) >= 5 and "panic" not in m
 
+    # ---- e2e: real macro-generated registry, real Divan::main() --list in a child process ----
+    e2e_cases = [f"{a} {r}" for a in ATTRS for r in (0, 1)]
+
+    def e2e_model_input(c, i):
+        k = i.find(" => ")
+        return c + " " + i[:k] if k >= 0 else c
+
+    def e2e_compare(i, m):
+        k = i.find(" => ")
+        return k >= 0 and i[k + 4:] == m
+
     out = [
         Stream("natural-order", "nat", nat, nontrivial=nt_nat, hist=hist_nat),
         Stream("arg-comparator", "cmp", cmp_cases, compare=same_result, nontrivial=nt_cmp, hist=hist_cmp),
@@ -615,6 +626,9 @@ def streams(tier, rng):
         Stream("arg-comparator-recorded-f64", "wcmp", wcmp_cases, compare=same_result, model_input=with_table, nontrivial=nt_cmp, hist=hist_w),
         Stream("arg-sort-recorded-f64", "wsort", wsort_cases, compare=same_result, model_input=with_table, nontrivial=nt_sort, hist=hist_w),
         Stream("tree-sibling-order", "tree", tree_cases, nontrivial=nt_tree, hist=hist_tree),
+        Stream("end-to-end-listing", "e2e", e2e_cases, compare=e2e_compare, model_input=e2e_model_input,
+               describe="hx-sort-e2e: #[divan::bench]/#[divan::bench_group] items (renamed groups, generic types not in token "
+                        "order, signed consts, types x consts, args) listed by Divan::main() --list --sort/--sortr <attr>"),
     ]
     return out
 
